@@ -9,10 +9,42 @@ from tempest import tools
 SQRTEPS = math.sqrt(float(np.finfo(np.float64).eps))
 
 
+def stub(u0):
+    """the injected uniform draw: `u0` for a scalar draw; for an array draw every element is still a value in [0,1) but the elements
+    differ (u0, 1-u0-eps, u0, ...) — a routine that draws one offset per position must not be handed a constant array"""
+    def draw(*a, **k):
+        shape = a[0] if a else k.get("size")
+        if shape is None:
+            return u0
+        out = np.full(shape, u0, dtype=float)
+        flat = out.reshape(-1)
+        flat[1::2] = min(max(1.0 - u0 - 1e-9, 0.0), float(np.nextafter(1, 0)))
+        return out
+    return draw
+
+
+def check_real_generator(size, w, seed):
+    """the real seeded generator, no stub: copy counts must be floor/ceil of size*w for exactly normalised weights"""
+    w = np.asarray(w, dtype=float)
+    np.random.seed(seed)
+    try:
+        idx = np.asarray(tools.systematic_resample(size, w.copy()))
+    except Exception as e:
+        return f"{type(e).__name__}: {e}"
+    if len(idx) != size or (idx < 0).any() or (idx >= len(w)).any() or (np.diff(idx) < 0).any():
+        return f"length/range/monotonicity broken under the real generator (seed {seed})"
+    copies = np.bincount(idx, minlength=len(w))
+    nw = size * w / w.sum()
+    bad = np.where((copies < np.floor(nw - 1e-9)) | (copies > np.ceil(nw + 1e-9)))[0]
+    if len(bad):
+        return f"real generator (seed {seed}): {copies[bad[0]]} copies of index {bad[0]}, size*w = {nw[bad[0]]:.4f}: not floor/ceil"
+    return None
+
+
 def check(size, w, u0):
     w = np.asarray(w, dtype=float)
     orig = np.random.random
-    np.random.random = lambda *a, **k: u0
+    np.random.random = stub(u0)
     try:
         try:
             idx = tools.systematic_resample(size, w.copy())
@@ -63,6 +95,15 @@ def main():
                                               "input": {"size": size, "w": ww.tolist(), "u0": u0},
                                               "note": "found by the bounded directed search around the solver model"}))
                             return
+    for n in (3, 7, 20):
+        for size in (5, 16, 50):
+            for seed in range(8):
+                w = rng.dirichlet(np.ones(n) * 0.7)
+                tried += 1
+                r = check_real_generator(size, w, seed)
+                if r:
+                    print(json.dumps({"reproduced": True, "detail": r, "tried": tried, "input": {"size": size, "w": w.tolist(), "seed": seed, "generator": "real"}}))
+                    return
     print(json.dumps({"reproduced": False, "tried": tried, "detail": "no failing input among the solver model and the directed search"}))
 
 
